@@ -1,11 +1,20 @@
 """T-gen of the I/O tables: lean/OrixGen/IoTables.lean from /repo's current source.
 
 Data that lives in module objects (point-group alias table, group names, proper subgroups) is read from the
-imported modules; literals that live inside functions (vendor column tables, footprints, Laue-class list,
-sentinel values, column order of the written table, property-name lists, unit flags) are read from the
-Python AST of the plugin files.  Nothing is guessed: an item that cannot be located is recorded in the
-status and the corresponding Lean constant is emitted as an *empty* table, so that the obligations that
-depend on it fail visibly (and the correspondence check decides whether behaviour changed)."""
+imported modules.  Tables and constants that live inside functions (vendor column tables, footprints, Laue-class
+list, sentinel values, column order of the written table, property-name lists, unit flags) have **two sources**:
+
+* *ast*: the literal at its syntactic place in the plugin file (first source, as before);
+* *exec*: the same item obtained by executing the code under test on synthetic inputs (io_probe.py: locals of the
+  traced call by name or shape, module-level objects, behaviour probes, key-recording dicts).
+
+When both are available they must agree (compared modulo what the rendered table cannot see, e.g. the order in
+which keys are asked for); if they disagree the status says so and the executed value is used, because it is what
+the code does.  When only one is available it is used.  Nothing is guessed: an item that neither source can
+locate is recorded in the status and the corresponding Lean constant is emitted as an *empty* table, so that the
+obligations that depend on it fail visibly (and the correspondence check decides whether behaviour changed).
+Status strings: "extracted (ast+exec agree)", "extracted (ast)", "extracted (exec)", each possibly followed by
+" [why the other source is missing / how they disagree]", or "not extracted: …"."""
 from __future__ import annotations
 
 import ast
@@ -22,8 +31,104 @@ class NotFound(Exception):
     pass
 
 
-def _parse(rel):
-    return ast.parse(open(os.path.join(REPO, rel)).read())
+CLEAN = ("extracted", "extracted (ast)", "extracted (ast+exec agree)")
+
+
+def is_clean(status):
+    """status strings that need no note in a check's output"""
+    return status in CLEAN
+
+
+def _canon(v):
+    if isinstance(v, dict):
+        return [[_canon(k), _canon(x)] for k, x in v.items()]
+    if isinstance(v, (list, tuple)):
+        return [_canon(x) for x in v]
+    if isinstance(v, (np.integer, np.floating, np.bool_)):
+        return v.item()
+    return v
+
+
+def _short(v, n=160):
+    t = repr(_canon(v))
+    return t if len(t) <= n else t[:n] + "…"
+
+
+def two_sources(st, key, ast_fn, exec_fn, default, same=None, conv=None):
+    """one table item from its two sources (see module docstring); total: never raises.
+    same(a, e): agreement of the AST value with the executed one (default: equal after list/tuple normalisation);
+    conv(e): executed value in the shape the renderer expects (default: as is)"""
+    def attempt(fn):
+        if fn is None:
+            return None, None
+        try:
+            return ("ok", fn()), None
+        except Exception as e:  # any source shape / behaviour the extractor does not understand = "not available"
+            kind = "INCONSISTENT " if type(e).__name__ == "Inconsistent" else ""
+            return None, f"{kind}{type(e).__name__} {e}"
+    a, a_err = attempt(ast_fn)
+    e, e_err = attempt(exec_fn)
+    if e is not None and conv is not None:
+        try:
+            e = ("ok", conv(e[1]))
+        except Exception as x:
+            e, e_err = None, f"{type(x).__name__} {x}"
+    if a is not None and e is not None:
+        try:
+            agree = same(a[1], e[1]) if same else _canon(a[1]) == _canon(e[1])
+        except Exception:
+            agree = False
+        if agree:
+            st[key] = "extracted (ast+exec agree)"
+            return a[1]
+        st[key] = f"extracted (exec) [ast DISAGREES: ast={_short(a[1])} exec={_short(e[1])}]"
+        return e[1]
+    if a is not None:
+        st[key] = "extracted (ast)" + (f" [exec: {e_err}]" if e_err else "")
+        return a[1]
+    if e is not None:
+        st[key] = f"extracted (exec) [ast: {a_err}]"
+        return e[1]
+    st[key] = f"not extracted: ast: {a_err}" + (f"; exec: {e_err}" if exec_fn is not None else "")
+    return default
+
+
+def _probe(st, key, cls, tmp, **kw):
+    """the executing probe of one plugin, or None (recorded) when the module cannot even be loaded"""
+    if tmp is None:
+        return None
+    try:
+        from . import io_probe
+        return getattr(io_probe, cls)(REPO, tmp, **kw)
+    except Exception as e:
+        st[key] = f"exec source unavailable: {type(e).__name__} {e}"
+        return None
+
+
+def _ex(probe, name, *post):
+    """exec source `probe.name()` (None when there is no probe)"""
+    if probe is None:
+        return None
+
+    def run():
+        v = getattr(probe, name)()
+        for f in post:
+            v = f(v)
+        return v
+    return run
+
+
+def _set_eq(a, b):
+    return sorted(map(repr, _canon(a))) == sorted(map(repr, _canon(b))) and len(a) == len(b)
+
+
+def _parse(rel, st=None):
+    try:
+        return ast.parse(open(os.path.join(REPO, rel)).read())
+    except Exception as e:  # unreadable / unparsable file: every AST item of it is "not available"
+        if st is not None:
+            st[f"parse {rel}"] = f"not parsed: {type(e).__name__} {e}"
+        return ast.Module(body=[], type_ignores=[])
 
 
 def _func(tree, name):
@@ -87,24 +192,27 @@ def lint(v):
 
 
 # ---- .ang ---------------------------------------------------------------------------------
-def extract_ang(st):
-    tree = _parse(f"{PLUG}/ang.py")
-    out = {}
+def _cols_norm(c):
+    return [(v, [list(d[k]) for k in sorted(d)]) for v, d in c.items()]
 
-    def grab(key, fn, default):
-        try:
-            out[key] = fn()
-            st[f"ang.{key}"] = "extracted"
-        except Exception as e:  # any source shape the extractor does not understand = "not extracted", never a crash
-            out[key] = default
-            st[f"ang.{key}"] = f"not extracted: {type(e).__name__} {e}"
+
+def extract_ang(st, tmp=None):
+    tree = _parse(f"{PLUG}/ang.py", st)
+    out = {}
+    pr = _probe(st, "ang.exec", "AngProbe", tmp, hints=out)
+
+    def grab(key, fn, default, ex=None, same=None, conv=None):
+        out[key] = two_sources(st, f"ang.{key}", fn, _ex(pr, ex) if isinstance(ex, str) else ex, default, same, conv)
 
     gvc = lambda: _func(tree, "_get_vendor_columns")
     rd = lambda: _func(tree, "file_reader")
     wr = lambda: _func(tree, "file_writer")
-    grab("footprint", lambda: _lit(_assign(gvc(), "vendor_footprint")), {})
-    grab("columns", lambda: _lit(_assign(gvc(), "column_names")), {})
-    grab("data_keys", lambda: list(_lit(_assign(rd(), "data_dict")).keys()), [])
+    grab("footprint", lambda: _lit(_assign(gvc(), "vendor_footprint")), {}, "footprint")
+    for note in getattr(pr, "footprint_notes", []):
+        st["ang.footprint"] += f" [{note}]"
+    grab("columns", lambda: _lit(_assign(gvc(), "column_names")), {}, "columns",
+         same=lambda a, e: _cols_norm(a) == _cols_norm(e))
+    grab("data_keys", lambda: list(_lit(_assign(rd(), "data_dict")).keys()), [], "data_keys")
 
     def not_indexed_vendors():
         for n in ast.walk(rd()):
@@ -117,7 +225,8 @@ def extract_ang(st):
                         return vendors, _lit(a.left.slice), _num(a.comparators[0])
         raise NotFound("not-indexed rule")
 
-    grab("not_indexed", not_indexed_vendors, ([], "", 0))
+    grab("not_indexed", not_indexed_vendors, ([], "", 0), "not_indexed",
+         same=lambda a, e: _set_eq(a[0], e[0]) and a[1] == e[1] and a[2] == e[2])
 
     def units():
         for n in ast.walk(rd()):
@@ -130,8 +239,9 @@ def extract_ang(st):
                     return v, a[0], b[0]
         raise NotFound("scan unit rule")
 
-    grab("units", units, ("", "", ""))
-    grab("decimals", lambda: int(_lit(_assign(wr(), "decimals"))), 0)
+    grab("units", units, ("", "", ""), "units", conv=lambda u: ("astar", u[0], u[1]),
+         same=lambda a, e: ((a[1] if a[0] == "astar" else ""), a[2]) == (e[1], e[2]))
+    grab("decimals", lambda: int(_lit(_assign(wr(), "decimals"))), 0, "decimals")
 
     def euler_sentinel():
         for n in ast.walk(wr()):
@@ -140,7 +250,7 @@ def extract_ang(st):
                 return float(_num(n.value))
         raise NotFound("euler sentinel")
 
-    grab("euler_sentinel", euler_sentinel, 0.0)
+    grab("euler_sentinel", euler_sentinel, 0.0, "euler_sentinel", same=lambda a, e: abs(a - e) <= 0.6e-5)
 
     def prop_sentinels():
         arr = np.full((1, 7), None, dtype=object)
@@ -163,7 +273,7 @@ def extract_ang(st):
             raise NotFound(f"sentinel assignments incomplete: {row}")
         return [float(v) for v in row[:5]]
 
-    grab("prop_sentinels", prop_sentinels, [0, 0, 0, 0, 0])
+    grab("prop_sentinels", prop_sentinels, [0, 0, 0, 0, 0], "prop_sentinels")
 
     def expected_names():
         v = _assign(_func(tree, "_get_prop_arrays"), "all_expected_prop_names")
@@ -174,7 +284,7 @@ def extract_ang(st):
             raise NotFound("expected 4 standard property lists")
         return names
 
-    grab("expected_names", expected_names, [[], [], [], []])
+    grab("expected_names", expected_names, [[], [], [], []], "expected_names")
 
     def column_order():
         for n in ast.walk(wr()):
@@ -198,7 +308,7 @@ def extract_ang(st):
                         return row
         raise NotFound("column_stack in savetxt")
 
-    grab("column_order", column_order, [])
+    grab("column_order", column_order, [], "column_order")
 
     def column_header():
         for n in ast.walk(wr()):
@@ -215,7 +325,7 @@ def extract_ang(st):
                     return [t.strip() for t in s.split(":", 1)[1].split(",")]
         raise NotFound("Column names header")
 
-    grab("column_header", column_header, [])
+    grab("column_header", column_header, [], "column_header")
 
     def no_pg():
         f = _func(tree, "_get_header_from_phases")
@@ -226,7 +336,7 @@ def extract_ang(st):
                         return _lit(a.value)
         raise NotFound("point_group_name default")
 
-    grab("no_pg", no_pg, "")
+    grab("no_pg", no_pg, "", "no_pg")
     return out
 
 
@@ -320,23 +430,19 @@ def properSubgroup : List (Str × Str) := [
 
 
 # ---- .ctf ---------------------------------------------------------------------------------
-def extract_ctf(st):
-    tree = _parse(f"{PLUG}/ctf.py")
+def extract_ctf(st, tmp=None):
+    tree = _parse(f"{PLUG}/ctf.py", st)
     out = {}
+    pr = _probe(st, "ctf.exec", "CtfProbe", tmp)
 
-    def grab(key, fn, default):
-        try:
-            out[key] = fn()
-            st[f"ctf.{key}"] = "extracted"
-        except Exception as e:  # any source shape the extractor does not understand = "not extracted", never a crash
-            out[key] = default
-            st[f"ctf.{key}"] = f"not extracted: {type(e).__name__} {e}"
+    def grab(key, fn, default, ex=None, same=None, conv=None):
+        out[key] = two_sources(st, f"ctf.{key}", fn, _ex(pr, ex) if isinstance(ex, str) else ex, default, same, conv)
 
     rd = lambda: _func(tree, "file_reader")
-    grab("columns", lambda: _lit(_assign(rd(), "column_names")), [])
-    grab("emsoft_mapping", lambda: _lit(_assign(rd(), "emsoft_mapping")), {})
-    grab("data_keys", lambda: list(_lit(_assign(rd(), "data_dict")).keys()), [])
-    grab("laue_ids", lambda: _lit(_assign(_func(tree, "_get_phases_from_header"), "laue_ids")), [])
+    grab("columns", lambda: _lit(_assign(rd(), "column_names")), [], "columns")
+    grab("emsoft_mapping", lambda: _lit(_assign(rd(), "emsoft_mapping")), {}, "emsoft_mapping")
+    grab("data_keys", lambda: list(_lit(_assign(rd(), "data_dict")).keys()), [], "data_keys")
+    grab("laue_ids", lambda: _lit(_assign(_func(tree, "_get_phases_from_header"), "laue_ids")), [], "laue_ids")
 
     def not_indexed():
         for n in ast.walk(rd()):
@@ -345,10 +451,10 @@ def extract_ctf(st):
                 return _lit(c.left.slice), int(_num(c.comparators[0]))
         raise NotFound("not_indexed")
 
-    grab("not_indexed", not_indexed, ("", -12345))
+    grab("not_indexed", not_indexed, ("", -12345), "not_indexed")
     grab("unit", lambda: [
         _lit(n.value) for n in ast.walk(rd()) if isinstance(n, ast.Assign) and isinstance(n.targets[0], ast.Subscript)
-        and isinstance(n.targets[0].slice, ast.Constant) and n.targets[0].slice.value == "scan_unit"][0], "")
+        and isinstance(n.targets[0].slice, ast.Constant) and n.targets[0].slice.value == "scan_unit"][0], "", "unit")
 
     def degrees():
         for n in ast.walk(rd()):
@@ -359,7 +465,7 @@ def extract_ctf(st):
                 return False
         raise NotFound("from_euler call")
 
-    grab("degrees", degrees, False)
+    grab("degrees", degrees, False, "degrees")
 
     def vendors():
         f = _func(tree, "_get_header")
@@ -373,7 +479,10 @@ def extract_ctf(st):
             raise NotFound("default vendor")
         return keys, default
 
-    grab("vendors", vendors, ([], ""))
+    grab("vendors", vendors, ([], ""), "vendors")
+    for note in getattr(pr, "vendor_notes", []):
+        st["ctf.vendors"] += f" [{note}]"
+
     def emsoft_vendor():
         for n in ast.walk(rd()):
             if isinstance(n, ast.BoolOp) and isinstance(n.op, ast.And):
@@ -383,11 +492,12 @@ def extract_ctf(st):
                         return _lit(v.comparators[0])
         raise NotFound("emsoft vendor test")
 
-    grab("emsoft_vendor", emsoft_vendor, "")
+    grab("emsoft_vendor", emsoft_vendor, "", "emsoft_vendor")
     grab("astar_vendor", lambda: [
         _lit(n.test.comparators[0]) for n in ast.walk(rd()) if isinstance(n, ast.If) and isinstance(n.test, ast.Compare)
         and isinstance(n.test.left, ast.Name) and n.test.left.id == "vendor"
-        and any(isinstance(c, ast.Call) and getattr(c.func, "id", "") == "_fix_astar_coords" for c in ast.walk(n))][0], "")
+        and any(isinstance(c, ast.Call) and getattr(c.func, "id", "") == "_fix_astar_coords" for c in ast.walk(n))][0], "",
+         "astar_vendor")
     return out
 
 
@@ -424,17 +534,13 @@ def ctfTables : Ctf.CtfTables where
 
 
 # ---- Bruker h5ebsd --------------------------------------------------------------------------
-def extract_bruker(st):
-    tree = _parse(f"{PLUG}/bruker_h5ebsd.py")
+def extract_bruker(st, tmp=None):
+    tree = _parse(f"{PLUG}/bruker_h5ebsd.py", st)
     out = {}
+    pr = _probe(st, "bruker.exec", "BrukerProbe", tmp)
 
-    def grab(key, fn, default):
-        try:
-            out[key] = fn()
-            st[f"bruker.{key}"] = "extracted"
-        except Exception as e:
-            out[key] = default
-            st[f"bruker.{key}"] = f"not extracted: {type(e).__name__} {e}"
+    def grab(key, fn, default, ex=None, same=None, conv=None):
+        out[key] = two_sources(st, f"bruker.{key}", fn, _ex(pr, ex) if isinstance(ex, str) else ex, default, same, conv)
 
     def props():
         f = _func(tree, "set_properties")
@@ -445,7 +551,7 @@ def extract_bruker(st):
                 return [(_lit(k), _lit(v.slice)) for k, v in zip(n.keys, n.values)]
         raise NotFound("properties dict")
 
-    grab("props", props, [])
+    grab("props", props, [], "props")
 
     def eulers():
         f = _func(tree, "set_rotations")
@@ -463,7 +569,7 @@ def extract_bruker(st):
             raise NotFound("euler datasets")
         return names, deg
 
-    grab("eulers", eulers, ([], False))
+    grab("eulers", eulers, ([], False), "eulers")
 
     def coords():
         f = _func(tree, "set_coordinate_arrays")
@@ -471,9 +577,9 @@ def extract_bruker(st):
         x = _lit(_assign(f, "x").slice)
         return y, x
 
-    grab("coords", coords, ("", ""))
-    grab("iy_names", lambda: _lit(_assign(_func(tree, "set_map_shape"), "potential_names_y")), [])
-    grab("ix_names", lambda: _lit(_assign(_func(tree, "set_map_shape"), "potential_names_x")), [])
+    grab("coords", coords, ("", ""), "coords")
+    grab("iy_names", lambda: _lit(_assign(_func(tree, "set_map_shape"), "potential_names_y")), [], "iy_names")
+    grab("ix_names", lambda: _lit(_assign(_func(tree, "set_map_shape"), "potential_names_x")), [], "ix_names")
 
     def reorder():
         f = _func(tree, "final_preparations")
@@ -491,7 +597,8 @@ def extract_bruker(st):
                     reversed_attrs.append(tgt.attr)
         return sorted_attrs, props_sorted, reversed_attrs
 
-    grab("reorder", reorder, ([], False, []))
+    grab("reorder", reorder, ([], False, []), "reorder",
+         same=lambda a, e: _set_eq(a[0], e[0]) and a[1] == e[1] and _set_eq(a[2], e[2]))
 
     def not_indexed():
         f = _func(tree, "set_phase_list")
@@ -500,7 +607,7 @@ def extract_bruker(st):
                 return int(_num(n.test.left))
         raise NotFound("not indexed id")
 
-    grab("not_indexed", not_indexed, -12345)
+    grab("not_indexed", not_indexed, -12345, "not_indexed")
 
     def phase_keys():
         f = _func(tree, "dict2phase")
@@ -512,7 +619,7 @@ def extract_bruker(st):
                     keys.append(k)
         return keys
 
-    grab("phase_keys", phase_keys, [])
+    grab("phase_keys", phase_keys, [], "phase_keys", same=_set_eq)
 
     def class_attr(name):
         for n in ast.walk(tree):
@@ -520,7 +627,7 @@ def extract_bruker(st):
                 return _lit(_assign(n, name))
         raise NotFound(name)
 
-    grab("unit", lambda: class_attr("scan_unit"), "")
+    grab("unit", lambda: class_attr("scan_unit"), "", "unit")
 
     def grid_type():
         f = _func(tree, "can_read")
@@ -529,7 +636,7 @@ def extract_bruker(st):
                 return _lit(n.left.slice), _lit(n.comparators[0])
         raise NotFound("grid type")
 
-    grab("grid_type", grid_type, ("", ""))
+    grab("grid_type", grid_type, ("", ""), "grid_type")
     return out
 
 
@@ -571,19 +678,15 @@ def brukerTables : Bruker.BrukerTables where
 
 
 # ---- EMsoft h5ebsd --------------------------------------------------------------------------
-def extract_emsoft(st):
-    tree = _parse(f"{PLUG}/emsoft_h5ebsd.py")
+def extract_emsoft(st, tmp=None):
+    tree = _parse(f"{PLUG}/emsoft_h5ebsd.py", st)
     out = {}
+    pr = _probe(st, "emsoft.exec", "EmsoftProbe", tmp)
 
-    def grab(key, fn, default):
-        try:
-            out[key] = fn()
-            st[f"emsoft.{key}"] = "extracted"
-        except Exception as e:
-            out[key] = default
-            st[f"emsoft.{key}"] = f"not extracted: {type(e).__name__} {e}"
+    def grab(key, fn, default, ex=None, same=None, conv=None):
+        out[key] = two_sources(st, f"emsoft.{key}", fn, _ex(pr, ex) if isinstance(ex, str) else ex, default, same, conv)
 
-    grab("props", lambda: _lit(_assign(_func(tree, "set_properties"), "expected_properties")), [])
+    grab("props", lambda: _lit(_assign(_func(tree, "set_properties"), "expected_properties")), [], "props")
 
     def rotations():
         f = _func(tree, "set_rotations")
@@ -608,7 +711,8 @@ def extract_emsoft(st):
 
         return info(branch.body), info(branch.orelse)
 
-    grab("rotations", rotations, (([], False, 0), ([], False, 0)))
+    grab("rotations", rotations, (([], False, 0), ([], False, 0)), "rotations",
+         same=lambda a, e: all(_set_eq(x[0], y[0]) and x[1] == y[1] and x[2] == y[2] for x, y in zip(a, e)))
 
     def class_attr(name):
         for n in ast.walk(tree):
@@ -616,7 +720,7 @@ def extract_emsoft(st):
                 return _lit(_assign(n, name))
         raise NotFound(name)
 
-    grab("unit", lambda: class_attr("scan_unit"), "")
+    grab("unit", lambda: class_attr("scan_unit"), "", "unit")
     return out
 
 
@@ -643,18 +747,16 @@ def emsoftTables : Emsoft.EmsoftTables where
 
 
 # ---- orix HDF5 -------------------------------------------------------------------------------
-def extract_h5(st):
-    tree = _parse(f"{PLUG}/orix_hdf5.py")
-    gen = _parse(f"{PLUG}/_h5ebsd.py")
+def extract_h5(st, tmp=None):
+    tree = _parse(f"{PLUG}/orix_hdf5.py", st)
+    gen = _parse(f"{PLUG}/_h5ebsd.py", st)
     out = {}
+    pr = _probe(st, "h5.exec", "H5Probe", tmp)
 
-    def grab(key, fn, default):
-        try:
-            out[key] = fn()
-            st[f"h5.{key}"] = "extracted"
-        except Exception as e:
-            out[key] = default
-            st[f"h5.{key}"] = f"not extracted: {type(e).__name__} {e}"
+    def grab(key, fn, default, ex=None, same=None, conv=None):
+        out[key] = two_sources(st, f"h5.{key}", fn, _ex(pr, ex) if isinstance(ex, str) else ex, default, same, conv)
+
+    first, second = (lambda v: v[0]), (lambda v: v[1])
 
     def writer_keys():
         f = _func(tree, "crystalmap2dict")
@@ -673,7 +775,7 @@ def extract_h5(st):
                     return data, header + extra
         raise NotFound("data/header literal")
 
-    grab("writer_keys", writer_keys, ([], []))
+    grab("writer_keys", writer_keys, ([], []), "writer_keys")
 
     def subscripts(fname, var):
         f = _func(tree, fname)
@@ -701,13 +803,17 @@ def extract_h5(st):
                             ks += list(_lit(m.iter))
         return sorted(set(ks)), subscripts("dict2crystalmap", "header")
 
-    grab("reader_keys", reader_pops, ([], []))
-    grab("phase_written", lambda: subscripts("phase2dict", "dictionary"), [])
-    grab("phase_read", lambda: subscripts("dict2phase", "dictionary"), [])
-    grab("structure_written", lambda: subscripts("structure2dict", "dictionary"), [])
-    grab("structure_read", lambda: subscripts("dict2structure", "dictionary"), [])
-    grab("lattice_written", lambda: subscripts("lattice2dict", "dictionary"), [])
-    grab("lattice_read", lambda: subscripts("dict2lattice", "dictionary"), [])
+    # the order in which a reader asks for keys is not part of the table: compared as sets
+    grab("reader_keys", reader_pops, ([], []), "reader_keys",
+         same=lambda a, e: list(a[0]) == list(e[0]) and _set_eq(a[1], e[1]))
+    grab("phase_written", lambda: subscripts("phase2dict", "dictionary"), [], _ex(pr, "phase", first), same=_set_eq)
+    grab("phase_read", lambda: subscripts("dict2phase", "dictionary"), [], _ex(pr, "phase", second), same=_set_eq)
+    grab("structure_written", lambda: subscripts("structure2dict", "dictionary"), [], _ex(pr, "structure", first),
+         same=_set_eq)
+    grab("structure_read", lambda: subscripts("dict2structure", "dictionary"), [], _ex(pr, "structure", second),
+         same=_set_eq)
+    grab("lattice_written", lambda: subscripts("lattice2dict", "dictionary"), [], _ex(pr, "lattice", first), same=_set_eq)
+    grab("lattice_read", lambda: subscripts("dict2lattice", "dictionary"), [], _ex(pr, "lattice", second), same=_set_eq)
 
     def atom_attrs():
         f = _func(tree, "atom2dict")
@@ -716,7 +822,7 @@ def extract_h5(st):
                 return [e.value for e in n.elts]
         raise NotFound("attribute list")
 
-    grab("atom_attrs", atom_attrs, [])
+    grab("atom_attrs", atom_attrs, [], "atom_attrs")
 
     def none_strings():
         f = _func(tree, "phase2dict")
@@ -729,7 +835,7 @@ def extract_h5(st):
             raise NotFound(f"None markers written {vals} read {rd}")
         return vals.pop()
 
-    grab("none_marker", none_strings, "")
+    grab("none_marker", none_strings, "", "none_marker")
 
     def generic_reader():
         f = _func(gen, "hdf5group2dict")
@@ -743,7 +849,7 @@ def extract_h5(st):
             raise NotFound("unwrap/decode")
         return unwrap, enc
 
-    grab("generic_reader", generic_reader, (0, ""))
+    grab("generic_reader", generic_reader, (0, ""), "generic_reader")
 
     def str_dtype():
         f = _func(tree, "dict2hdf5group")
@@ -755,13 +861,15 @@ def extract_h5(st):
                         return int(m.right.value)
         raise NotFound("string dtype")
 
-    grab("str_pad", str_dtype, -1)
+    grab("str_pad", str_dtype, -1, "str_pad")
 
     def sg_pg():
         from orix.quaternion.symmetry import get_point_group
         return [get_point_group(n).name for n in range(1, 231)]
 
     grab("sg_point_group", sg_pg, [])
+    if st.get("h5.sg_point_group") == "extracted (ast)":
+        st["h5.sg_point_group"] = "extracted"        # module objects: single source
     return out
 
 
@@ -795,15 +903,30 @@ def phaseTables : H5.PhaseTables :=
 """
 
 
-def generate():
+def generate(execute=True):
+    """text of OrixGen/IoTables.lean and the status of every item; execute=False: AST source only"""
+    import contextlib
     st = {}
+    with contextlib.ExitStack() as stack:
+        tmp = None
+        if execute:
+            try:
+                from . import io_probe
+                tmp = stack.enter_context(io_probe.workdir())
+            except Exception as e:
+                st["exec"] = f"exec sources unavailable: {type(e).__name__} {e}"
+        return _generate(st, tmp)
+
+
+def _generate(st, tmp):
     sym = extract_symmetry(st)
     parts = ["import OrixModel.Codec.Ang\nimport OrixModel.Codec.H5\nimport OrixModel.Codec.Ctf\n"
              "import OrixModel.Codec.Bruker\nimport OrixModel.Codec.Emsoft\n"
              "/- GENERATED by harness/extract/tables_io.py from /repo (module objects and Python AST). "
              "Do not edit. -/\nnamespace Orix.Gen.Io\nopen Orix.Codec Orix.Codec.Ang\n",
-             render_symmetry(sym), render_ang(extract_ang(st), sym), render_h5(extract_h5(st)),
-             render_ctf(extract_ctf(st)), render_bruker(extract_bruker(st)), render_emsoft(extract_emsoft(st)),
+             render_symmetry(sym), render_ang(extract_ang(st, tmp), sym), render_h5(extract_h5(st, tmp)),
+             render_ctf(extract_ctf(st, tmp)), render_bruker(extract_bruker(st, tmp)),
+             render_emsoft(extract_emsoft(st, tmp)),
              "end Orix.Gen.Io\n"]
     return "\n".join(parts), st
 
